@@ -355,7 +355,7 @@ def build(x):
     nxt.insert_before(re.compile(r'return \w+;'), 'proof { assert(Self::step(old(self), self, @{msg}, taken, fake)); }   // #obl:start.step_contract.element\n                ')
     nxt.insert_before('self.watermark_frontier.update(sender, Timestamp::MAX);', 'let ghost front_before = self.watermark_frontier.front();\n                                    ')
     nxt.insert_after('self.watermark_frontier.update(sender, Timestamp::MAX);', HINT_FR_ARM)
-    nxt.insert_before('self.missing_flush_and_restart -= 1;', '// a replica that ended its iteration no longer holds the frontier back\n                                assert(self.watermark_frontier.entries()[sender] == Some(Timestamp::MAX));   // #obl:start.ended_replica_no_longer_holds_back_the_frontier\n                                ')
+    nxt.insert_before(re.compile(r'self\.missing_flush_and_restart\s*(?:-=\s*1|=\s*self\.missing_flush_and_restart\s*-\s*1);'), '// a replica that ended its iteration no longer holds the frontier back\n                                assert(self.watermark_frontier.entries()[sender] == Some(Timestamp::MAX));   // #obl:start.ended_replica_no_longer_holds_back_the_frontier\n                                ')
     nxt.insert_before('NetworkMessage::new_single(', 'proof { fake = true; }\n                            ')
     nxt.insert_before('let net_msg = match', 'let ghost r0 = self.receiver.received();\n            let ghost fake0 = fake;\n            proof { assert(self.unread() =~= Seq::<StreamElement<Receiver::Out>>::empty()); assert(!fake0); }\n            ')
     nxt.insert_before('self.batch_iter = Some((net_msg.sender(), net_msg.into_iter()));', HINT_RECV_PRE)
